@@ -3,6 +3,8 @@
 package txb
 
 import (
+	"crypto/sha256"
+	"crypto/sha512"
 	"fmt"
 
 	"github.com/Oneledger/protocol/action"
@@ -59,6 +61,38 @@ func SignWith(raw action.RawTx, privs ...keys.PrivateKey) []action.Signature {
 		sigs = append(sigs, action.Signature{Signer: pub, Signed: s})
 	}
 	return sigs
+}
+
+// TxPreHash signs the way a hardware wallet does: the ed25519 signature is made over a digest of the raw
+// transaction bytes and is prefixed with the 6-byte name of the digest ("SHA256", "SHA512", ...).
+func TxPreHash(msg action.Msg, fee action.Fee, memo string, tag string, signer *world.Account) []byte {
+	raw := Raw(msg, fee, memo)
+	var digest []byte
+	switch tag {
+	case "SHA224":
+		d := sha256.Sum224(raw.RawBytes())
+		digest = d[:]
+	case "SHA256":
+		d := sha256.Sum256(raw.RawBytes())
+		digest = d[:]
+	case "SHA384":
+		d := sha512.Sum384(raw.RawBytes())
+		digest = d[:]
+	case "SHA512":
+		d := sha512.Sum512(raw.RawBytes())
+		digest = d[:]
+	default:
+		panic("unknown pre-hash tag " + tag)
+	}
+	h, err := signer.Priv.GetHandler()
+	if err != nil {
+		panic(err)
+	}
+	sg, err := h.Sign(digest)
+	if err != nil {
+		panic(err)
+	}
+	return Pack(raw, []action.Signature{{Signer: h.PubKey(), Signed: append([]byte(tag), sg...)}})
 }
 
 func Pack(raw action.RawTx, sigs []action.Signature) []byte {
